@@ -21,3 +21,35 @@ Proof.
   repeat split; apply Qeq_bool_iff; assumption.
 Qed.
 
+
+(* ---- a leap year of loads (years = [2020]): every year of the horizon has 8784 hours, February has 29 days ---- *)
+Definition cum13_leap : list Z := [0; 744; 1440; 2184; 2904; 3648; 4368; 5112; 5856; 6576; 7320; 8040; 8784].
+Definition closed_lmh_leap (m : Z) : Z := 8784 * ((m - 1) / 12) + nth (Z.to_nat ((m - 1) mod 12 + 1)) cum13_leap 0.
+Definition cal_check_leap (m : Z) : bool :=
+  qeqb (last_month_hour (inject_Z m) [2020%Q]) (inject_Z (closed_lmh_leap m)) &&
+  qeqb (first_month_hour (inject_Z m) [2020%Q]) (inject_Z (closed_lmh_leap (m - 1) + 1)) &&
+  qeqb (monthdays (inject_Z m) 2020 * 24)%Q (inject_Z (closed_lmh_leap m - closed_lmh_leap (m - 1))).
+
+Lemma calendar_closed_leap_600 : forallb cal_check_leap (rangeZ 1 601) = true.
+Proof. vm_compute. reflexivity. Qed.
+
+Lemma calendar_closed_leap m : 1 <= m <= 600 ->
+  (last_month_hour (inject_Z m) [2020%Q] == inject_Z (closed_lmh_leap m))%Q /\
+  (first_month_hour (inject_Z m) [2020%Q] == inject_Z (closed_lmh_leap (m - 1) + 1))%Q /\
+  (monthdays (inject_Z m) 2020 * 24 == inject_Z (closed_lmh_leap m - closed_lmh_leap (m - 1)))%Q.
+Proof.
+  intros H. pose proof calendar_closed_leap_600 as A. rewrite forallb_forall in A.
+  assert (Hin : In m (rangeZ 1 601)) by (apply in_rangeZ; lia).
+  specialize (A m Hin). unfold cal_check_leap in A.
+  apply andb_prop in A. destruct A as [A C]. apply andb_prop in A. destruct A as [A B].
+  repeat split; apply Qeq_bool_iff; assumption.
+Qed.
+
+(* ---- a LIST of load years: the helpers take the year of the month asked for and apply it to every month before it, so the start of a
+   month is not the end of the previous month plus one as soon as a leap year follows a normal one (observation, section 6.3 of
+   DESIGN.md: the manager never passes more than one load year) ---- *)
+Lemma multi_year_calendar_breaks :
+  let ys := [2019%Q; 2019%Q; 2020%Q] in
+  (first_month_hour 25 ys == 17569)%Q /\ (last_month_hour 24 ys == 17520)%Q /\
+  ~ (first_month_hour 25 ys == last_month_hour 24 ys + 1)%Q.
+Proof. cbv zeta. repeat split; vm_compute; try reflexivity; discriminate. Qed.
